@@ -578,9 +578,12 @@ fn check_worker(case: &Case) -> CaseResult {
         }
     }
     run_segment(&segment, &sink);
-    let flushes_before_drop = flushes.load(Ordering::SeqCst);
-    // dropping the last handle: the worker emits what it holds and terminates
+    // dropping the last handle: the worker emits what it holds and terminates. The flush counter is
+    // read AFTER the drop returned: with a live periodic flush (zero / 100 us interval) a correct
+    // worker flushes continuously up to that point, and from then on at most a few more times
+    // (its next receive reports the disconnect)
     drop(sink);
+    let flushes_before_drop = flushes.load(Ordering::SeqCst);
     let t0 = std::time::Instant::now();
     loop {
         if dropped.load(Ordering::SeqCst) == 1 {
